@@ -172,9 +172,23 @@ def hasInfix (needle : List Char) : List Char → Bool
   | [] => needle.isEmpty
   | c :: cs => needle.isPrefixOf (c :: cs) || hasInfix needle cs
 
+/-- `'\\' in s`: the DICOM value delimiter occurs in the string -/
+def hasBackslash (s : String) : Bool := s.toList.contains '\\'
+
+/-- `scheme_version is not None and '\\' in scheme_version` needs the version only when it is given -/
+def optHasBackslash (version : Option String) : Bool :=
+  match version with
+  | some ver => hasBackslash ver
+  | none => false
+
+/-- `value.lower().startswith(prefix)` / `value.startswith(prefix)`, whichever the code does (ASCII lower-casing:
+no non-ASCII character lower-cases to a letter of the prefix) -/
+def prefixTest (v : String) : Bool :=
+  urnPrefix.toList.isPrefixOf (if urnPrefixCaseInsensitive then v.toList.map Char.toLower else v.toList)
+
 /-- what the code treats as a URN or URL -/
 def looksLikeUrn (v : String) : Bool :=
-  urnPrefix.toList.isPrefixOf v.toList || hasInfix urlMarker.toList v.toList
+  prefixTest v || hasInfix urlMarker.toList v.toList
 
 /-- the constructor argument named `p` -/
 def ctorArg (vals : List (Option String)) (p : String) : Option String :=
@@ -196,8 +210,9 @@ def applyOptional (arg : String → Option String) : List (String × String) →
 
 /-- `CodedConcept(value, scheme_designator, meaning, scheme_version)` -/
 def mkConcept (value scheme meaning : String) (version : Option String) : Except ErrKind DS :=
-  match ctorValueAttr value.length (urnPrefix.toList.isPrefixOf value.toList)
-      (hasInfix urlMarker.toList value.toList) meaning.length with
+  match ctorValueAttr (hasBackslash value) (hasBackslash scheme) (hasBackslash meaning) version.isSome
+      (optHasBackslash version)
+      value.length (prefixTest value) (hasInfix urlMarker.toList value.toList) meaning.length with
   | .error e => .error e
   | .ok k =>
     if k < 0 then .error .other else
